@@ -7,7 +7,7 @@ from .gen import pick
 from .c07 import Counting
 
 PROPERTY = "C08"
-C08_APPS = ["anext", "islice2", "takewhile", "zip_first", "zip_second", "batched2", "pairwise", "islice022", "enumerate", "chain", "filter", "merge1", "iter", "borrow", "map", "dropwhile", "islice13", "accumulate", "zip_longest", "compress", "cycle"]
+C08_APPS = ["anext", "islice2", "takewhile", "zip_first", "zip_second", "batched2", "pairwise", "islice022", "merge2", "enumerate", "chain", "filter", "merge1", "iter", "borrow", "map", "dropwhile", "islice13", "accumulate", "zip_longest", "compress", "cycle"]
 NA = len(C08_APPS)
 
 
@@ -225,27 +225,27 @@ def jobs(tier):
 
     N = 3
     for a0 in range(NA):
-        # A: every tool followed by one of the 8 consumption-distinct tools over the shared iterator
-        add(N=N, LP=2, apps=8, D=1, EX=0, J=(1, 2), fix={"a0": a0, "n": N, "d1": 0}, fl="agen")
+        # A: every tool followed by one of the 9 consumption-distinct tools over the shared iterator
+        add(N=N, LP=2, apps=9, D=1, EX=0, J=(1, 2), fix={"a0": a0, "n": N, "d1": 0}, fl="agen")
         # B: every tool alone: all lengths, items taken, dispositions, exit by exception before/after
         add(N=N, LP=1, apps=NA, D=1, EX=1, fix={"a0": a0}, fl=("acls" if a0 % 2 else "agen"))
     # C: nesting depth 2..3 (application innermost, outer handles used after inner exit)
     for depth in (2, 3):
         for fl in ("agen", "acls"):
-            add(N=N, LP=1, apps=8, D=3, EX=1, fix={"depth": depth, "n": N}, fl=fl)
+            add(N=N, LP=1, apps=9, D=3, EX=1, fix={"depth": depth, "n": N}, fl=fl)
     # D: cancellation at every suspension point (sources suspend once per pull), depth 1..2
-    for a0 in range(8):
-        add(N=2, LP=1, apps=8, D=2, EX=0, XC=7, fix={"a0": a0, "n": 2}, fl=("acls" if a0 % 2 else "agen"))
+    for a0 in range(9):
+        add(N=2, LP=1, apps=9, D=2, EX=0, XC=7, fix={"a0": a0, "n": 2}, fl=("acls" if a0 % 2 else "agen"))
     if not q:
-        for a0 in range(8):
-            for a1 in range(8):
-                add(N=N, LP=3, apps=8, D=1, EX=1, J=(1, 2), fix={"a0": a0, "a1": a1, "n": N, "d1": 1, "d2": 0}, fl="acls")
+        for a0 in range(9):
+            for a1 in range(9):
+                add(N=N, LP=3, apps=9, D=1, EX=1, J=(1, 2), fix={"a0": a0, "a1": a1, "n": N, "d1": 1, "d2": 0}, fl="acls")
     return J
 
 
 LEVEL = "other"
 BOUNDS = {
-    "quick": "block programs of 2 applications (tool by symbolic selector from 20 tools; second from the 8 consumption-distinct ones), j<=2 items each, disposition exhausted/closed/abandoned, exit by fall-through or an exception raised before application e or after the last; nesting depth 1..3 (one application innermost, outer handle used after inner exit); cancellation at suspension k<=6 with suspending sources; N<=2..3 items, keys unbounded",
+    "quick": "block programs of 2 applications (tool by symbolic selector from 20 tools; second from the 9 consumption-distinct ones), j<=2 items each, disposition exhausted/closed/abandoned, exit by fall-through or an exception raised before application e or after the last; nesting depth 1..3 (one application innermost, outer handle used after inner exit); cancellation at suspension k<=6 with suspending sources; N<=2..3 items, keys unbounded",
     "thorough": "3 applications, N<=3, class-based sources",
 }
 OUTSIDE = ["more than 3 applications per block", "nesting deeper than 3", "concurrent use of the scoped handle"]
